@@ -47,6 +47,15 @@ def pyStr : Scalar → Str
   | .none => "None".toList
   | .str s => s
 
+def decFlavor (j : Json) : Except String Flavor := do
+  match j.getObjVal? "fl" with
+  | .ok v => match ← v.getStr? with
+    | "native" => pure .native
+    | "foam" => pure .foam
+    | "base" => pure .base
+    | x => throw s!"bad flavor {x}"
+  | .error _ => pure .native
+
 def handle (j : Json) : Except String Json := do
   let op ← (← j.getObjVal? "op").getStr?
   match op with
@@ -78,6 +87,15 @@ def handle (j : Json) : Except String Json := do
     | some p => pure (encPath p)
     | none => pure (Json.str "none")
   | "reduce" => pure (encSD ((← decSD (← j.getObjVal? "sd")).reduceScope (← decPath (← j.getObjVal? "p"))))
+  | "parse_value" => pure (encScalar (parseValue (← decStr (← j.getObjVal? "s"))))
+  | "parse_key" =>
+    pure (encScalar (parseKey (← decStr (← j.getObjVal? "s"))))
+  | "remove_quotes" => pure (str (removeQuotes (← decStr (← j.getObjVal? "s"))))
+  | "format_value" =>
+    let fl ← decFlavor j
+    match ← decVal (← j.getObjVal? "v") with
+    | .leaf x => pure (str (formatScalar fl x))
+    | _ => throw "format_value: scalar expected"
   | _ => throw s!"unknown op {op}"
 
 end DictIO.Ops
